@@ -524,6 +524,8 @@ class Probe:
             return ""
         if segs[-2:] in (["Vec", "new"], ["Vec", "default"]) and not args:
             return []
+        if segs[-2:] == ["String", "with_capacity"] and len(args) == 1:
+            return ""
         if segs[-2:] in (["Rc", "new"], ["Box", "new"], ["Arc", "new"]) and len(args) == 1:
             return args[0]
         if segs[-2:] == ["iter", "once"] and len(args) == 1:
@@ -631,6 +633,19 @@ class Probe:
 
     def mcall(self, e, env):
         m = e["m"]
+        if m in ("push", "push_str") and len(e["args"]) == 1:
+            # String accumulators: strings are immutable values here, so the variable is rebound
+            try:
+                cont, key = self.place(e["recv"], env)
+                cur = cont[key] if not isinstance(cont, dict_view) else cont[key]
+            except (NoEval, KeyError):
+                cont, cur = None, None
+            if isinstance(cur, str):
+                a = self.ev(e["args"][0], env)
+                if not isinstance(a, str):
+                    raise NoEval("push of %r onto a string" % (a,))
+                cont[key] = cur + a
+                return ()
         if m in self.mhooks:
             r = self.mhooks[m](self, e, env)
             if r is not NotImplemented:
